@@ -227,6 +227,13 @@ func (m *CSMatrix) Mmap(ctx context.Context) error {
 	filename := file.Name()
 	logger = logger.With().Str("filename", filename).Logger()
 	logger.Debug().Int("nnz", nnz).Msg("swapping out")
+	removed := false
+	defer func() {
+		if !removed {
+			logger.Trace().Msg("removing file upon failure")
+			_ = os.Remove(filename)
+		}
+	}()
 	defer func() {
 		if file != nil {
 			logger.Trace().Msg("closing file without mapping")
@@ -261,6 +268,7 @@ func (m *CSMatrix) Mmap(ctx context.Context) error {
 	if err != nil {
 		return err
 	}
+	removed = true
 	e0 := (*Entry)(unsafe.Pointer(&mapped[0]))
 	entries := unsafe.Slice(e0, nnz)
 	logger.Trace().Msg("copying")
